@@ -31,7 +31,8 @@ Definition proj_peel (r : res (plain * option N * N)) : pobs :=
   | _ => ORej
   end.
 
-Record wcase := { w_cfg : cfg; w_prof : profile; w_spar : list N; w_payload : N; w_sender : N; w_rcpts : list N;
+Record wcase := { w_accept : list mtp; w_default : mtp; w_auth : bool; w_kt : ktype; w_enc : encalg; w_style : kstyle;
+                  w_spar : list N; w_payload : N; w_sender : N; w_rcpts : list N;
                   w_routing : list hop; w_sent : bool;
                   w_levels : list (list (list N * pobs)) }.
 
@@ -60,9 +61,13 @@ Fixpoint check_levels (ls : list layer) (w : wire) (levels : list (list (list N 
   end.
 
 Definition check_wcase (c : wcase) : bool :=
-  match wrap FFixed (w_cfg c) (w_prof c) (w_spar c) (w_payload c) (w_sender c) (w_rcpts c) (w_routing c) rnd0 with
+  match family (media_type (w_accept c) (w_default c)) with
+  | None => false
+  | Some pf =>
+  match wrap FFixed (cfg_of pf (w_auth c) (w_kt c) (w_enc c) (w_style c)) pf (w_spar c) (w_payload c) (w_sender c) (w_rcpts c) (w_routing c) rnd0 with
   | Ok (outer, ls) => w_sent c && check_levels ls outer (w_levels c)
   | _ => negb (w_sent c)
+  end
   end.
 
 (* route histories *)
